@@ -113,6 +113,8 @@ def enc_bytes(v, flexible):
 
 
 def ms_of_timedelta(v):
+    if type(v).__name__ == "RawMillis":
+        return int(v)
     us = td_us(v)
     if us is None:
         raise Unsupported(f"reference: duration of type {type(v).__name__}")
@@ -120,6 +122,8 @@ def ms_of_timedelta(v):
 
 
 def ms_of_datetime(v):
+    if type(v).__name__ == "RawMillis":
+        return int(v)
     if type(v) is DT:
         return v.secs * 1000 + v.micro // 1000
     d = v - EPOCH
